@@ -620,6 +620,15 @@ def scenario(name, rng):
         T0 = rng.uniform(715, 730)
         m.setTemperature([0, 0.05, 0.1, 0.2], [T0, T0 + rng.uniform(8, 25), T0 - rng.uniform(10, 30), T0 - 30])
         return m, 3600 * 0.2
+    if name == 'alzr-noniso-nocheckT':
+        m = kwnruns.build_binary(**small)
+        T0 = rng.uniform(715, 730); sg = rng.choice([-1, 1])
+        m.setTemperature([0, 0.05, 0.2], [T0, T0 + sg * rng.uniform(8, 25), T0 + sg * 30])
+        m.setConstraints(checkTemperature=False)
+        return m, 3600 * 0.2
+    if name == 'alzr-fine-grid':
+        # the default PBM grid (1e-10 .. 1e-9 m, 150 classes): outgrown early, re-meshed while the precipitate volume is still small
+        return kwnruns.build_binary(x0=rng.uniform(3.5e-3, 5e-3), bins=150, minBins=100, maxBins=200, cMax=1e-9), 3600 * 5
     if name == 'alzr-slow-ramp':
         m = kwnruns.build_binary(**small)
         T0 = rng.uniform(715, 730); rate = rng.choice([-1, 1]) * rng.uniform(0.5, 3)
@@ -642,7 +651,7 @@ def scenario(name, rng):
     raise KeyError(name)
 
 
-def refine_scenarios(ctx, res, prop, plan, observer=None):
+def refine_scenarios(ctx, res, prop, plan, observer=None, oracles=()):
     prop = DRIVER
     """plan: list of (scenario name, step cap).  Runs each real model with the recorder attached (explicit Euler), replays every
     accepted step through the composed Lean model `KWNFull.eulerStep` (driver of `prop`) and records a disagreement for every
@@ -653,22 +662,33 @@ def refine_scenarios(ctx, res, prop, plan, observer=None):
     for name, cap in plan:
         with warnings.catch_warnings():
             warnings.simplefilter('ignore')
-            ok, out = vlib.guarded(res, 'kwn-step-refinement:' + name, dict(scenario=name), _one, ctx, res, prop, name, cap, observer)
+            ok, out = vlib.guarded(res, 'kwn-step-refinement:' + name, dict(scenario=name), _one, ctx, res, prop, name, cap, observer, oracles)
         if ok and out is not None:
             done.append((name, out))
     return done
 
 
-def _one(ctx, res, prop, name, cap, observer):
+def _one(ctx, res, prop, name, cap, observer, oracles=()):
     import kwnruns
     m, simt = scenario(name, ctx.rng)
+    opts = name.split('@')[1:]
+    if 'record' in opts:
+        m.setPSDrecording(True)
     rec = attach(m)
     try:
-        try:
-            kwnruns.run(m, simt, solver='rk4' if name.endswith('@rk4') else 'euler', max_steps=cap, observer=observer)
-        except kwnruns.StopRun:
-            pass
+        solver = 'rk4' if 'rk4' in opts else 'euler'
+        if '2solves' in opts:
+            # two solve calls; the first one ends by itself (short simulated time), the second runs into the step cap
+            first = simt * ctx.rng.uniform(0.002, 0.01)
+            n1 = kwnruns.run(m, first, solver=solver, max_steps=cap // 2, observer=observer)
+            m._verif_obs = False      # a fresh step counter for the second call
+            m.couplingModels = [c for c in m.couplingModels if type(c).__name__ != 'Obs']
+            kwnruns.run(m, simt, solver=solver, max_steps=max(cap - n1, 5), observer=observer)
+        else:
+            kwnruns.run(m, simt, solver=solver, max_steps=cap, observer=observer)
         cfg = config(m)
+        if oracles:
+            step_oracles(res, rec, cfg, name, oracles)
         if not ensure_driver():
             res.extra['composed_step_driver'] = 'drv_C03 does not build'
             return m
@@ -687,3 +707,123 @@ def _one(ctx, res, prop, name, cap, observer):
     if len(bad) > 3:
         res.count('composed-step:%s:disagreeing-steps' % name, len(bad))
     return m
+
+
+# ------------------------------------------------------------------ direct oracles on the captured steps
+# The statements of the composed-step theorems (and of the property clauses they serve), evaluated on the IMPLEMENTATION's own
+# entry/exit states: when the refinement breaks because the code changed, these find the failing step on the real code.
+ORACLES = {
+    'rows':      'exactly one row appended per accepted step, stamped old time + accepted step, strictly later, not past the end time (C03)',
+    'grid':      'stored grids consistent after the step: lengths, increasing boundaries, centres = midpoints, populations >= 0 (C03/C08)',
+    'continuity': 'nothing changes the model state between two accepted steps, also across solve calls (C01/C02/C03)',
+    'volume':    'the stored distribution after the step holds the particle volume of the state the row was computed from, up to the <1/m3 truncation (C01/C02)',
+    'recorded':  'the recorded size distribution of a step is the stored one (C02)',
+    'nuc':       'negative driving force => no nucleation terms; non-zero critical radius >= Rmin; no nucleation radius without it (C14)',
+    'lookup':    'binary: lookup table computed within maxTempChange of the newest recorded temperature (C13)',
+}
+
+
+def _eq_state(a, b):
+    """first difference between two captured states (exact), or None"""
+    if a['n'] != b['n']:
+        return 'pData.n %d -> %d' % (a['n'], b['n'])
+    for p, (x, y) in enumerate(zip(a['ph'], b['ph'])):
+        for k in ('bins', 'dissIdx', 'rdfIdx'):
+            if x[k] != y[k]:
+                return '%s[%d] %r -> %r' % (k, p, x[k], y[k])
+        for k in ('psd', 'bounds', 'size', 'xaT', 'xbT', 'growth'):
+            u, v = np.asarray(x[k]), np.asarray(y[k])
+            if u.shape != v.shape or not np.array_equal(u, v, equal_nan=True):
+                return '%s[%d] changed' % (k, p)
+    if a['lookT'] != b['lookT']:
+        return 'lookup temperature %r -> %r' % (a['lookT'], b['lookT'])
+    r, s = a['hist'][0], b['hist'][0]
+    if r['time'] != s['time'] or r['temp'] != s['temp'] or not np.array_equal(r['comp'], s['comp']):
+        return 'newest row changed'
+    return None
+
+
+def step_oracles(res, rec, cfg, name, which):
+    steps = [s for s in rec.steps if s.get('post') is not None]
+    E = cfg['nElem']
+    for i, st in enumerate(steps):
+        pre, post = st['pre'], st['post']
+        case = dict(scenario=name, step=i, t=post['hist'][0]['time'])
+        if 'rows' in which:
+            t0, t1 = pre['hist'][0]['time'], post['hist'][0]['time']
+            if post['n'] != pre['n'] + 1:
+                res.violate('composed:row-count', 'an accepted step did not append exactly one row to the recorded histories', case, post['n'] - pre['n'], 1)
+            elif not (t1 > t0) or t1 > st['tf'] * (1 + 4e-16) + 1e-300:
+                res.violate('composed:time-stamp', 'time stamp of the appended row is not strictly later than the previous one / passes the end time',
+                            dict(case, previous=t0, end=st['tf']), t1)
+        if 'grid' in which or 'volume' in which:
+            for p, ph in enumerate(post['ph']):
+                b, sz, psd = np.asarray(ph['bounds']), np.asarray(ph['size']), np.asarray(ph['psd'])
+                if 'grid' in which:
+                    bad = None
+                    if not (len(b) == ph['bins'] + 1 and len(sz) == ph['bins'] and len(psd) == ph['bins']):
+                        bad = 'array lengths do not match the class count'
+                    elif not np.all(np.diff(b) > 0):
+                        bad = 'class boundaries not strictly increasing'
+                    elif not np.allclose(sz, 0.5 * (b[:-1] + b[1:]), rtol=1e-12, atol=0):
+                        bad = 'class centres are not the midpoints of the boundaries'
+                    elif psd.min() < 0 or not np.all(np.isfinite(psd)):
+                        bad = 'negative or non-finite stored population'
+                    elif not (vlib.close(b[0], ph['min'], 1e-12) and vlib.close(b[-1], ph['max'], 1e-12)):
+                        bad = 'boundaries do not run from the stated minimum to the stated maximum'
+                    if bad:
+                        res.violate('composed:grid-inconsistent', 'stored size-class grid after an accepted step: ' + bad, dict(case, phase=p))
+                if 'volume' in which and st.get('xNew') is not None:
+                    yp = post['hist'][0]['ph'][p]
+                    reset = yp['dG'] < 0 and not np.any(np.asarray(yp['xEqA']))
+                    pp, x = pre['ph'][p], np.asarray(st['xNew'][p], dtype=float)
+                    if not reset and len(x) == len(pp['size']):
+                        r3 = np.asarray(pp['size']) ** 3
+                        xz = x.copy(); xz[:pp['rdfIdx'] + 1] = 0; xz[np.asarray(pp['size']) < cfg['minRadius']] = 0
+                        vol_state = float(np.sum(np.where(xz < 1, 0.0, xz) * r3))
+                        vol_store = float(np.sum(psd * sz ** 3))
+                        slack = float(np.sum(r3[(xz < 1)])) + float(np.sum(sz[:ph['rdfIdx'] + 1] ** 3 * psd[:ph['rdfIdx'] + 1]))
+                        # classes zeroed AFTER a table rebuild inside the update (new RdrivingForceIndex) are part of the documented removal
+                        if ph['rdfIdx'] == pp['rdfIdx'] and not vlib.close(vol_state, vol_store, 1e-9, scale=slack):
+                            res.violate('composed:stored-volume-differs', 'third moment of the stored distribution after the step (incl. extension / re-mesh) '
+                                        'differs from that of the state the recorded row was computed from', dict(case, phase=p, bins=(pp['bins'], ph['bins'])),
+                                        vol_store, vol_state)
+        if 'continuity' in which and i + 1 < len(steps):
+            d = _eq_state(post, steps[i + 1]['pre'])
+            if d:
+                res.violate('composed:state-changed-between-steps', 'the model state on entry of a step differs from the state at the end of the '
+                            'previous step: ' + d, dict(case, next_step=i + 1))
+        if 'nuc' in which:
+            for p, yp in enumerate(post['hist'][0]['ph']):
+                rmin = cfg['phases'][p]['rmin']
+                if yp['dG'] < 0 and (yp['nucRate'] != 0 or yp['Rnuc'] != 0 or yp['Rcrit'] != 0 or yp['Gcrit'] != 0 or yp['beta'] != 0):
+                    res.violate('composed:nucleation-terms-under-negative-driving-force', 'a recorded row with negative driving force carries nucleation terms',
+                                dict(case, phase=p), {k: yp[k] for k in ('dG', 'nucRate', 'Rnuc', 'Rcrit', 'Gcrit', 'beta')})
+                elif yp['Rcrit'] != 0 and yp['Rcrit'] < rmin:
+                    res.violate('composed:critical-radius-below-minimum', 'recorded critical radius is non-zero and below the minimum radius', dict(case, phase=p), yp['Rcrit'], rmin)
+                elif yp['Rnuc'] != 0 and yp['Rcrit'] < rmin:
+                    res.violate('composed:nucleation-radius-without-critical-radius', 'nucleation radius handed out with a critical radius below Rmin', dict(case, phase=p), yp['Rnuc'])
+        if 'lookup' in which and cfg['binary']:
+            T, Tl = post['hist'][0]['temp'], post['lookT']
+            if abs(T - Tl) > cfg['maxTempChange'] * (1 + 1e-12):
+                res.violate('composed:lookup-table-stale', 'the interfacial-composition table in use after the step was computed %.3f K away from the recorded '
+                            'temperature (maxTempChange %.3g)' % (abs(T - Tl), cfg['maxTempChange']), dict(case, T=T, table_T=Tl))
+    if 'recorded' in which:
+        m = rec.m
+        for p in range(rec.P):
+            pbm = m.PBM[p]
+            if not pbm._record or pbm._recordedPSD is None:
+                continue
+            rows = np.asarray(pbm._recordedPSD)
+            # row 0 is the initial record; row k+1 belongs to accepted step k of this recorder (recording switched on before the first step)
+            off = len(rows) - len(steps)
+            for i, st in enumerate(steps):
+                ph = st['post']['ph'][p]
+                if ph['bins'] != st['pre']['ph'][p]['bins'] or off + i < 0:
+                    continue        # the grid changed after the record was taken
+                row = rows[off + i][:ph['bins']]
+                if not np.array_equal(row, np.asarray(ph['psd'])):
+                    j = int(np.argmax(row != np.asarray(ph['psd'])))
+                    res.violate('composed:recorded-psd-differs-from-stored', 'the size distribution recorded for a step is not the distribution stored by that step',
+                                dict(scenario=name, step=i, phase=p, first_class=j), float(row[j]), float(ph['psd'][j]))
+                    break
